@@ -8,7 +8,7 @@ cd /verif || exit 2
 one() {
   d=${1%/}; id=$(basename "$d"); prop=${id%%-*}
   det=$(python3 -c "import json;print(json.load(open('$d/meta.json'))['detected_by_quick_check'])" 2>/dev/null)
-  out=$($RUNNER "$d/patch.diff" "$prop" 2>&1); rc=$(echo "$out" | grep -o 'exit=[0-9]*' | tail -1)
+  cb=$(python3 -c "import json;print(json.load(open('$d/meta.json')).get('checked_by',''))" 2>/dev/null); out=$($RUNNER "$d/patch.diff" "${cb:-$prop}" 2>&1); rc=$(echo "$out" | grep -o 'exit=[0-9]*' | tail -1)
   nviol=$(echo "$out" | grep -c '^VIOLATION')
   case "$det" in
     neutralised-by-fix|yes-on-pre-fix-tree|not-a-violation-under-reading) want="exit=0" ;;
